@@ -38,10 +38,16 @@ LEVEL_NOTE = ("PROVED in Lean for all inputs of the model: split on any span lis
               "slice at the explicit span of line i), join (C06), ljust/rjust (exact attributes of characters and padding, "
               "text = padded text), fill-character variants and the generic delegation theorem (result carries EXACTLY the "
               "formatting shared by all characters; bytes / non-text answers / exceptions pass through), fmtstr(text, **dict) "
-              "= Chunk(text, dict) via the parse_args soundness theorem. PARTIAL: delegated str methods are uninterpreted "
+              "= Chunk(text, dict) via the parse_args soundness theorem; ljust/rjust without fill never fail on a FmtStr with "
+              ">= 1 run (C15_just_total). READING of 'carry the formatting shared by all characters' for ljust/rjust without "
+              "fill character, with sh = sharedAtts f (exactly the entries common to all characters): with a shared bg the "
+              "characters are unchanged and the padding carries {bg} ONLY - it drops the other shared attributes; without a "
+              "shared bg every character loses its own (non-shared) bg and the padding carries exactly sh. Shown: (padOf sh) <= "
+              "sh, sh <= keepOf sh a <= a (C15_just_bounds), exact forms in C15_ljust / C15_rjust. PARTIAL: delegated str methods are uninterpreted "
               "functions (that `m` is CPython's str.upper etc. is not a Lean fact - the correspondence hands the real str "
-              "result to the model); regex matching enters as a span list; the str specs (split, splitlines, ljust) are "
-              "hand-written and cross-checked against CPython only through the correspondence; result texts containing ESC '[' "
+              "result to the model); regex matching enters as a span list; the str specs (split, splitlines, ljust/rjust) "
+              "are hand-written and tied to CPython's str directly every run (exhaustive small strings) and through the method "
+              "correspondence; result texts containing ESC '[' "
               "are excluded by hypothesis (open finding D27, witness theorem C15_delegate_witness). Trusted: Lean kernel + "
               "propext/Classical.choice/Quot.sound, the hand-written model and specs, extract.py, the wire codec")
 
@@ -455,24 +461,119 @@ def oracle(c):
         return "observing the result raised %s: %s" % (type(e).__name__, e)
 
 
-def footprint(c, what):
-    """D27 (open): fmtstr(str) parses the escape sequences of a plain str - here the text a str method returned.
-    Precise predicate: the str result (or an element of a list result) that gets re-wrapped contains ESC '['."""
+D27_MODEL = {}   # request line -> reply of the Lean model (its own escape parser `fromStr`, not the tree's fmtstr)
+
+
+def d27_shaped(c):
+    """the re-wrapped str result (or an element of a list result / the fill-padded text) contains ESC '['"""
     if c["m"] in NATIVE and not (c["m"] in ("ljust", "rjust") and len(c["args"]) > 1):
-        return None
+        return False
     try:
         exp = call_str(c)
     except Exception:  # noqa: BLE001
-        return None
+        return False
     texts = [exp] if isinstance(exp, str) else (exp if isinstance(exp, list) else [])
-    if any(isinstance(x, str) and "\x1b[" in x for x in texts):
+    return any(isinstance(x, str) and "\x1b[" in x for x in texts)
+
+
+def consistent(x):
+    """a FmtStr whose .s / len / str() are those of its own runs"""
+    ch = wire.fmt_chunks(x)
+    return x.s == "".join(t for t, _ in ch) and len(x) == len(x.s) and str(x) == str(mk_fmt(ch))
+
+
+def footprint(c, what):
+    """D27 (open): fmtstr(str) parses the escape sequences of a plain str - here the text a str method returned.
+    Attributed ONLY when everything the real code does is what D27 explains: the result equals the Lean model's
+    answer for the same request (the str result parsed by the model's own escape parser, re-wrapped with the shared
+    attributes), it is internally consistent, a second call gives the same answer, no operand changed, nothing raised.
+    Any other deviation on such an input is an unlisted violation."""
+    if not d27_shaped(c):
+        return None
+    reply = D27_MODEL.get(line(c))
+    if reply is None or not reply.startswith("ok"):
+        return None
+    try:
+        f, rargs = build(c)
+        ops = operands(f, rargs)
+        before = [snapshot(x) for x in ops]
+        r = do_call(f, c["m"], rargs)
+        if canon(enc_result(r)) != canon(reply):
+            return None
+        parts = r if isinstance(r, list) else [r]
+        if not all(isinstance(x, FmtStr) and consistent(x) for x in parts):
+            return None
+        if observed(do_call(f, c["m"], rargs)) != observed(r):
+            return None
+        if [snapshot(x) for x in ops] != before:
+            return None
         return "D27"
-    return None
+    except Exception:  # noqa: BLE001
+        return None
+
+
+# ---- the hand-written str specifications (lean/Curtsies/Spec/StrMethods.lean) against CPython, directly -------------
+
+def enc_te(t):
+    return wire.enc_text(t) or "e"
+
+
+def spec_cases(ctx):
+    import itertools as it
+    out = []
+    n = 6 if ctx.thorough else 5
+    strs = ["".join(p) for k in range(n + 1) for p in it.product("ab,", repeat=k)]
+    for t in strs:
+        for sep in (",", "a", "ab", ",,", "aa", "b,a", "aba"):
+            out.append(dict(spec="split", t=t, sep=sep))
+    lines = ["".join(p) for k in range(n + 1) for p in it.product("a\n\r\x85", repeat=k)]
+    for t in lines:
+        for keep in (False, True):
+            out.append(dict(spec="splitlines", t=t, keep=keep))
+    for t in ["".join(p) for k in range(4) for p in it.product("a ", repeat=k)]:
+        for w in range(-1, 6):
+            for fill in (" ", ".", "漢"):
+                out.append(dict(spec="ljust", t=t, w=w, fill=fill))
+                out.append(dict(spec="rjust", t=t, w=w, fill=fill))
+    return out
+
+
+def spec_line(c):
+    k = c["spec"]
+    if k == "split":
+        return "specsplit %s %s" % (enc_te(c["sep"]), enc_te(c["t"]))
+    if k == "splitlines":
+        return "specsplitlines %d %s %s" % (1 if c["keep"] else 0, enc_te(breaks_of(c["t"])), enc_te(c["t"]))
+    return "spec%s %s %d %s" % (k, enc_te(c["t"]), c["w"], enc_te(c["fill"]))
+
+
+def spec_impl(c):
+    k = c["spec"]
+    if k == "split":
+        r = c["t"].split(c["sep"])
+    elif k == "splitlines":
+        r = c["t"].splitlines(c["keep"])
+    elif k == "ljust":
+        return "ok " + enc_te(c["t"].ljust(c["w"], c["fill"]))
+    else:
+        return "ok " + enc_te(c["t"].rjust(c["w"], c["fill"]))
+    return "ok [" + " ".join(enc_te(x) for x in r) + "]"
 
 
 def check(ctx):
     cases = mk_cases(ctx)
+    d27 = [c for c in cases if d27_shaped(c)]
+    try:
+        import lib
+        for c, rep in zip(d27, lib.run_driver([line(c) for c in d27])):
+            D27_MODEL[line(c)] = rep
+    except Exception as e:  # noqa: BLE001 - without the model nothing is attributed to D27
+        ctx.note("D27 expectations unavailable: %r" % (e,))
     ctx.tie("C15/methods", cases, line, impl, canon, canon)
+    sc = spec_cases(ctx)
+    ctx.tie("C15/str-specs-vs-CPython", sc, spec_line, spec_impl)
+    ctx.exhaustive.append("Spec.strSplit / strSplitlines / pyLjust / pyRjust against CPython str on all strings over small "
+                          "alphabets up to length %d: %d cases" % (6 if ctx.thorough else 5, len(sc)))
     for c in cases:
         w = oracle(c)
         ctx.count(c, nontrivial=any(t for t, _ in c["f"]), tag=c["m"])
